@@ -59,6 +59,25 @@ static int enc_op(const char *op) {
     } else if (!strcmp(op, "sp")) {
         enc_valid_cfg(&ecfg);
         rc = svt_av1_enc_set_parameter(eh, &ecfg);
+    } else if (!strcmp(op, "sq")) { /* valid configuration without recon output (nothing but packets to collect) */
+        enc_valid_cfg(&ecfg);
+        ecfg.recon_enabled = 0;
+        rc = svt_av1_enc_set_parameter(eh, &ecfg);
+    } else if (!strncmp(op, "pm", 2)) { /* pm<N>: N pictures submitted back to back, nothing fetched in between */
+        int n = atoi(op + 2);
+        for (int k = 0; k < n && rc == EB_ErrorNone; k++) {
+            EbBufferHeaderType b;
+            memset(&b, 0, sizeof(b));
+            enc_make_pic(e_sent);
+            b.size = sizeof(b);
+            b.p_buffer = (uint8_t *)&e_io;
+            b.n_filled_len = b.n_alloc_len = (uint32_t)(e_w * e_h * 3 / 2);
+            b.pts = e_sent++;
+            b.pic_type = EB_AV1_INVALID_PICTURE;
+            rc = svt_av1_enc_send_picture(eh, &b);
+            if ((k & 15) == 15)
+                dprintf(g_proto, "I %d sent %d\n", g_idx, k + 1);
+        }
     } else if (!strncmp(op, "sb", 2)) { /* sb0..sb5: different rejected configurations */
         EbSvtAv1EncConfiguration bad = ecfg;
         enc_valid_cfg(&bad);
